@@ -222,3 +222,17 @@ pub(super) mod udp {
         ((item, recipient.clone()), sender)
     }
 }
+
+#[cfg(feature = "verif-hooks")]
+pub mod verif {
+    pub use super::ClientAEADCodec;
+    pub mod tcp {
+        pub use super::super::tcp::new_codec;
+    }
+    pub mod udp {
+        pub use super::super::udp::new_codec;
+        pub use super::super::udp::new_key;
+        pub use super::super::udp::to_inbound_recv;
+        pub use super::super::udp::to_outbound_send;
+    }
+}
